@@ -317,6 +317,34 @@ func (e *Engine) setFact(c *config, v ssa.Value, a Abs) {
 	sort.Slice(c.facts, func(i, j int) bool { return c.facts[i].id < c.facts[j].id })
 }
 
+// simpleCell reports whether the local is only stored to and loaded from
+// directly (e.g. the result cell go/ssa introduces in functions with defers).
+func simpleCell(al *ssa.Alloc) bool {
+	if al.Heap {
+		return false
+	}
+	refs := al.Referrers()
+	if refs == nil {
+		return false
+	}
+	for _, r := range *refs {
+		switch r := r.(type) {
+		case *ssa.Store:
+			if r.Addr != al {
+				return false
+			}
+		case *ssa.UnOp:
+			if r.Op != token.MUL {
+				return false
+			}
+		case *ssa.DebugRef:
+		default:
+			return false
+		}
+	}
+	return true
+}
+
 func isNilConst(v ssa.Value) bool {
 	c, ok := v.(*ssa.Const)
 	return ok && c.Value == nil
@@ -371,6 +399,12 @@ func (e *Engine) evalD(c *config, v ssa.Value, d int) Abs {
 			return e.evalD(c, v.X, d+1).Inv()
 		}
 		if v.Op == token.MUL {
+			if al, ok := v.X.(*ssa.Alloc); ok && simpleCell(al) {
+				if id, ok := e.ids[al]; ok {
+					return c.get(id)
+				}
+				return Unknown
+			}
 			if g, ok := v.X.(*ssa.Global); ok && strings.HasPrefix(g.Name(), "Err") && types.Identical(g.Type().(*types.Pointer).Elem(), errorType) {
 				return NonZero
 			}
@@ -758,6 +792,17 @@ func (e *Engine) stepBlock(c0 *config, sum *summary, isRoot bool) []*config {
 				next = append(next, e.doCall(c, instr)...)
 			default:
 				// other instructions: events on non-call instructions
+				if st, ok := instr.(*ssa.Store); ok {
+					if al, ok := st.Addr.(*ssa.Alloc); ok && simpleCell(al) {
+						a := e.eval(c, st.Val)
+						if a != Unknown {
+							e.id(al)
+						}
+						if _, has := e.ids[al]; has {
+							e.setFact(c, al, a)
+						}
+					}
+				}
 				if v, ok := instr.(ssa.Value); ok {
 					if _, isExt := v.(*ssa.Extract); !isExt {
 						if _, has := e.ids[v]; has {
